@@ -129,6 +129,8 @@ def check(ctx):
                         "from_acme_ext returns that key pair with that certificate", [FAE, "returned-pair"])
 
     R4 = ctx.rule("R4", "init: domain, extension, key type and digest reach the matching parameters; stdin values are read from the shared stdin handle")
+    from .c01 import idna_rule
+    idna_rule(ctx, R4)          # the SAN text: to_idna evaluated on sample names (lower-cased A-labels)
     for c_ in ini.calls_to(FAE):
         dom, ext, kt, dg = (arg_origins(c_, i, through=True) for i in range(4))
         def opts(sl):
